@@ -40,6 +40,9 @@ func GenR6(t *rapid.T) R6Case {
 		b = gen.MutateBytes(t, b, gen.GenMsg6(t).Bytes())
 		c.Mutated = true
 	}
+	if len(b) > 65000 {
+		b = b[:65000] // a UDP datagram carries at most 65527 bytes over IPv6: longer ones cannot arrive
+	}
 	c.Hex = hex.EncodeToString(b)
 	c.Src = rapid.SampledFrom([]string{"fe80::1", "fe80::211:22ff:fe33:4455", "2001:db8::99", "2001:db8:1::1", "::1", "fd00::5"}).Draw(t, "src")
 	c.Port = rapid.SampledFrom([]int{546, 547, 1024, 65535, 1}).Draw(t, "port")
@@ -123,6 +126,11 @@ func ExecR6(c R6Case) (res core.Result) {
 
 func execR6(c R6Case, hs []handler.Handler6) (res core.Result) {
 	dgram, _ := hex.DecodeString(c.Hex)
+	if len(dgram) > 65527 {
+		// not a datagram UDP over IPv6 can carry (the capture hook would hand the server a prefix of it)
+		res.Skipped = "bad-case"
+		return
+	}
 	l2, _ := ifaces()
 	var cap6 *server.Capture6
 	boundIdx := 0
